@@ -141,6 +141,15 @@ func runC05(c *core.Ctx) {
 		d.S.StepFair(k.checkInterval)
 		sess.hook("connected")
 	}
+	if !c.Failed() && !k.liteB && c.T.Bias(1, 3, "restart-then-conflicts") {
+		// conflicts met by a restarted agent are decided like any other: by the tie-breaker it advertises
+		c.Fault("restart-before-conflicts")
+		sess.restart()
+		for i := 0; i < extra && !c.Failed(); i++ {
+			d.S.StepFair(k.checkInterval)
+			sess.hook("connected")
+		}
+	}
 }
 
 func lastRole(r []string) string {
@@ -168,6 +177,32 @@ type c05Injector struct {
 	tick         time.Duration // upper bound of the interval between two check ticks of a connected agent
 }
 
+// advertised returns the tie-breaker in the most recent Binding request sent from a socket of host h.
+func (in *c05Injector) advertised(h *simnet.Host) (uint64, bool) {
+	d := in.d
+	ids := hostSockIDs(d.W, h)
+	d.W.Lock()
+	wire := append([]*rig.WireEv(nil), d.Wire...)
+	d.W.Unlock()
+	for i := len(wire) - 1; i >= 0; i-- {
+		w := wire[i]
+		if !ids[w.D.SockID] || w.D.Dup {
+			continue
+		}
+		m := w.Msg()
+		if !m.IsSTUN || m.Class != stun.ClassRequest {
+			continue
+		}
+		if m.Controlling != nil {
+			return *m.Controlling, true
+		}
+		if m.Controlled != nil {
+			return *m.Controlled, true
+		}
+	}
+	return 0, false
+}
+
 func (in *c05Injector) inject() {
 	c, d := in.c, in.d
 	target, peer, th := d.A, d.B, d.HA
@@ -175,6 +210,9 @@ func (in *c05Injector) inject() {
 		// (with a lite B only B is targeted: the full peer then stays controlling, so nothing but a forged
 		// conflict can change the role of B, which the checker cannot read off the wire)
 		target, peer, th = d.B, d.A, d.HB
+	}
+	if uf, _, err := target.A.GetRemoteUserCredentials(); err != nil || uf != peer.Ufrag {
+		return // after a Restart, until the peer's new credentials are set, no request of the peer can be authentic
 	}
 	if target.Conn == nil || peer.Conn == nil {
 		return
@@ -227,7 +265,15 @@ func (in *c05Injector) inject() {
 		src = netip.AddrPortFrom(netip.MustParseAddr("192.0.2.44"), uint16(45000+c.T.Choose(3, "unkport")))
 		c.Probe("conflict-from-unknown-source")
 	}
+	// the agent's tie-breaker is the one it advertises (a peer knows no other): read off its latest request,
+	// the configured value only while it has not sent any (a lite agent in the controlled role never does)
 	own := in.tb[target.Name]
+	if adv, ok := in.advertised(th); ok {
+		if adv != own {
+			c.Probe("advertised-tie-breaker-differs-from-configured")
+		}
+		own = adv
+	}
 	var theirs uint64
 	switch c.T.Choose(6, "theirs") {
 	case 0:
